@@ -45,14 +45,16 @@ def pack (s : State) : State × R Bytes :=
 /-- `PTDP.unpack`: returns the rest of the buffer -/
 def unpack (s : State) (buffer : Bytes) : State × R Bytes :=
   if buffer.length < 6 then (s, .error .ptdpRemaining) else
+  -- the low latency marking is not carried by the PTDP itself
+  let s0 := { s with low_latency := false }
   match Golay.decodeBytes (slice buffer 0 3) with
-  | .error e => (s, .error e)
+  | .error e => (s0, .error e)
   | .ok lsw =>
     match Golay.decodeBytes (slice buffer 3 6) with
-    | .error e => (s, .error e)
+    | .error e => (s0, .error e)
     | .ok msw =>
-      let s1 := { s with length := msw + ((lsw &&& 0xF) <<< 12), fragment := (lsw >>> 4) &&& 0x3,
-                         content := (lsw >>> 6) &&& 0xF }
+      let s1 := { s0 with length := msw + ((lsw &&& 0xF) <<< 12), fragment := (lsw >>> 4) &&& 0x3,
+                          content := (lsw >>> 6) &&& 0xF }
       if s1.length > PTDP_MAX_LEN then (s1, .error .ptdpLength)
       else if (buffer.drop 6).length < s1.length then (s1, .error .ptdpRemaining)
       else
